@@ -92,6 +92,10 @@ def gen_batch(r, bi, services=False, can=False, n_random=(6, 9), out_of_order=Tr
     # a NEGATIVE field id (the front end accepts it): it sorts first; all leaves are whole bytes.  Declared after
     # the random structs so that it is neither a building block nor among the first CAN-bound structs.
     add(p + "NegId", [("a", 0, ("u", 8)), ("flags", -1, ("u", 8)), ("b", 5, ("i", 16))] if out_of_order else [("flags", -1, ("u", 8)), ("a", 0, ("u", 8)), ("b", 5, ("i", 16))])
+    # a binding of one struct RENAMED to the name of another declared struct (impl uart for DupId as Arr2): a message is
+    # looked up among the structs by its struct's name, whatever bindings are called
+    decls.append({"kind": "impl", "protocol": "uart", "type": p + "DupId", "name": p + "Arr2", "items": [("field", "id", 77)]})
+    decls.append({"kind": "impl", "protocol": "spi", "type": p + "Carr", "name": p + "In", "items": [("field", "port", 1)]})
     can_bindings = []
     if can:
         ids = r.sample(range(1, 2047), 6)
